@@ -416,6 +416,57 @@ example : Decomposes (ofString "audit(1490137971.011:50406): a=b") 1490137971 11
   ⟨ofString "audit", ofString "1490137971", ofString "011", ofString "50406", ofString ": a=b",
     by decide, by decide, by decide, by decide, by decide, by decide, by decide⟩
 
+/-- the number a string of decimal digits denotes (no bound, no wrapping). -/
+def digitsValue (bs : Bytes) : Nat := bs.foldl (fun a b => a * 10 + (b - 48)) 0
+
+theorem parseDigits_value {bs : Bytes} {acc v : Nat} (h : parseDigits bs acc = some v) :
+    (∀ b ∈ bs, isDigit b = true) ∧ v = bs.foldl (fun a b => a * 10 + (b - 48)) acc := by
+  induction bs generalizing acc with
+  | nil => simp [parseDigits] at h; simp [h]
+  | cons x xs ih =>
+    unfold parseDigits at h
+    split at h
+    · rename_i hx
+      obtain ⟨h1, h2⟩ := ih h
+      exact ⟨fun b hb => by rcases List.mem_cons.mp hb with rfl | hb; exact hx; exact h1 b hb, by simpa using h2⟩
+    · simp at h
+
+/-- **The sequence number of an accepted header is the number that was written.** Whatever header
+the parser accepts, the text between ':' and ')' is a non-empty string of decimal digits, the
+sequence number is the number those digits denote — as a natural number, not modulo anything — and
+it fits in 32 bits. A digit string that denotes 2^32 or more (2^64 + 5, say, which is 5 modulo 2^64)
+is a malformed header. -/
+theorem C04_sequence_is_the_number_written (S M N : Bytes) (sec nsec : Int) (seq : Nat)
+    (h : headerNums S M N = some (sec, nsec, seq)) :
+    N ≠ [] ∧ (∀ b ∈ N, isDigit b = true) ∧ seq = digitsValue N ∧ seq < 2 ^ 32 := by
+  unfold headerNums at h
+  split at h
+  · simp at h
+  · split at h
+    · simp at h
+    · split at h
+      · simp at h
+      · rename_i q hq
+        simp only [Option.some.injEq, Prod.mk.injEq] at h
+        obtain ⟨_, _, rfl⟩ := h
+        unfold parseUint at hq
+        split at hq
+        · simp at hq
+        · rename_i hne
+          split at hq
+          · rename_i v hv
+            split at hq
+            · rename_i hle
+              simp only [Option.some.injEq] at hq
+              subst hq
+              obtain ⟨h1, h2⟩ := parseDigits_value hv
+              exact ⟨by intro hh; simp [hh] at hne, h1, h2, by omega⟩
+            · simp at hq
+          · simp at hq
+
+example : headerNums (ofString "1490137971") (ofString "011") (ofString "18446744073709551621") = none := by
+  decide +kernel
+
 /-- non-vacuity: the hypotheses of the round trip hold for a concrete line. -/
 example : trimSpace (writtenHeader 1490137971 11 50406 ++ ofString ": " ++ ofString "a=b") =
     writtenHeader 1490137971 11 50406 ++ ofString ": a=b" := by
